@@ -278,12 +278,13 @@ theorem snap_goodP {k : Key2} {p : Int} {s : Sim} (hI : SInvP k p s) (i : Nat) :
   | none => exact ⟨hI.1, Past.refl k _, TPast.refl _⟩
   | some w => exact hI.2 i w h
 
-theorem stepWorld_okP {k : Key2} {p : Int} (hp0 : 0 ≤ p) {s : Sim} (hI : SInvP k p s) (op : Op) (hop : ∀ n, op ≠ .editMax k n) :
+theorem stepWorld_okP {k : Key2} {p : Int} (hp0 : 0 ≤ p) {s : Sim} (hI : SInvP k p s) (op : Op) (hop : ∀ n, op ≠ .editMax k n)
+    (hopd : ∀ k', op ≠ .userDelete k') :
     PI k p (stepWorld s op).1 ∧ Past k s.cur (stepWorld s op).1 ∧ TPast s.cur (stepWorld s op).1 := by
   obtain ⟨hW, ⟨mx, hX⟩, hT, hK⟩ := hI.1
   -- the trial part of every operation (from C06)
   have hST : SInvT s := ⟨⟨hT, hK⟩, fun i h hh => ⟨(hI.2 i h hh).1.2.2.1, (hI.2 i h hh).2.2⟩⟩
-  obtain ⟨⟨t1, t2⟩, t3⟩ := stepWorld_okT hST op
+  obtain ⟨⟨t1, t2⟩, t3⟩ := stepWorld_okT hST op hopd
   have hb0 : 0 ≤ parBound k p s.cur := by unfold parBound; have := doneCount_nonneg k s.cur; omega
   have hb2 : parBound k p s.cur ≤ parBound k p (stepWorld s op).1 := by
     unfold parBound; have := doneCount_mono (k := k) hK t2 t3; omega
@@ -381,11 +382,12 @@ theorem stepWorld_okP {k : Key2} {p : Int} (hp0 : 0 ≤ p) {s : Sim} (hI : SInvP
     · simp only [stepWorld]; split
       · rfl
       · split <;> rfl
+  | userDelete k' => exact absurd rfl (hopd k')
   | noop => exact ⟨hI.1, Past.refl k _, TPast.refl _⟩
 
-theorem step_invP {k : Key2} {p : Int} (hp0 : 0 ≤ p) {s : Sim} (hI : SInvP k p s) (op : Op) (hop : ∀ n, op ≠ .editMax k n) :
-    SInvP k p (step s op).1 := by
-  obtain ⟨hW, hP, hT⟩ := stepWorld_okP hp0 hI op hop
+theorem step_invP {k : Key2} {p : Int} (hp0 : 0 ≤ p) {s : Sim} (hI : SInvP k p s) (op : Op) (hop : ∀ n, op ≠ .editMax k n)
+    (hopd : ∀ k', op ≠ .userDelete k') : SInvP k p (step s op).1 := by
+  obtain ⟨hW, hP, hT⟩ := stepWorld_okP hp0 hI op hop hopd
   unfold step
   refine ⟨hW, ?_⟩
   intro i h hh
@@ -397,12 +399,14 @@ theorem step_invP {k : Key2} {p : Int} (hp0 : 0 ≤ p) {s : Sim} (hI : SInvP k p
     obtain ⟨h1, h2, h3⟩ := hI.2 i h hh
     exact ⟨h1, Past.trans h2 hP, TPast.trans h3 hT⟩
 
-theorem run_invP {k : Key2} {p : Int} (hp0 : 0 ≤ p) (ops : List Op) : ∀ {s : Sim}, SInvP k p s → (∀ op ∈ ops, ∀ n, op ≠ .editMax k n) → SInvP k p (run s ops) := by
+theorem run_invP {k : Key2} {p : Int} (hp0 : 0 ≤ p) (ops : List Op) : ∀ {s : Sim}, SInvP k p s → (∀ op ∈ ops, ∀ n, op ≠ .editMax k n) →
+    (∀ op ∈ ops, ∀ k', op ≠ .userDelete k') → SInvP k p (run s ops) := by
   induction ops with
-  | nil => intro s h _; exact h
+  | nil => intro s h _ _; exact h
   | cons op r ih =>
-    intro s h hops
-    exact ih (step_invP hp0 h op (hops op List.mem_cons_self)) (fun o ho => hops o (List.mem_cons_of_mem _ ho))
+    intro s h hops hopd
+    exact ih (step_invP hp0 h op (hops op List.mem_cons_self) (hopd op List.mem_cons_self)) (fun o ho => hops o (List.mem_cons_of_mem _ ho))
+      (fun o ho => hopd o (List.mem_cons_of_mem _ ho))
 
 theorem init_invP (k : Key2) (p : Int) (hp0 : 0 ≤ p) (es : List ExpInit) (hinit : ∀ e ∈ es, e.key = k → e.par = p) : SInvP k p (Sim.init es) := by
   have hPI : PI k p (Sim.init es).cur := by
@@ -439,12 +443,13 @@ theorem length_filter_split {α : Type} (q : α → Bool) (l : List α) : l.leng
 /-- **C01_parallel**: over every schedule, the trials of an experiment that are not completed never exceed
     `parallelTrialCount` (and `#trials ≤ #assignments ≤ #completed + parallelTrialCount`). -/
 theorem C01_parallel (k : Key2) (p : Int) (hp0 : 0 ≤ p) (es : List ExpInit) (ops : List Op)
-    (hinit : ∀ e ∈ es, e.key = k → e.par = p) (hops : ∀ op ∈ ops, ∀ n, op ≠ .editMax k n) :
+    (hinit : ∀ e ∈ es, e.key = k → e.par = p) (hops : ∀ op ∈ ops, ∀ n, op ≠ .editMax k n)
+    (hopd : ∀ op ∈ ops, ∀ k', op ≠ .userDelete k') :
     let s := run (Sim.init es) ops
     ((((trialsOf s.cur k).filter (fun t => !tCompleted t)).length : Nat) : Int) ≤ p ∧
     (∀ sg, findSug s.cur k = some sg → (sg.st.names.length : Int) ≤ doneCount k s.cur + p ∧ sg.requests ≤ doneCount k s.cur + p) := by
   intro s
-  have hI : SInvP k p s := run_invP hp0 ops (init_invP k p hp0 es hinit) hops
+  have hI : SInvP k p s := run_invP hp0 ops (init_invP k p hp0 es hinit) hops hopd
   obtain ⟨hW, _, _, _⟩ := hI.1
   have hb0 : 0 ≤ parBound k p s.cur := by unfold parBound; have := doneCount_nonneg k s.cur; omega
   have htot := trialsOf_le hb0 hW
